@@ -223,7 +223,8 @@ def inputs_rule(ctx, fv):
             ll = {"body": fe}
             okl = not branchy
         else:
-            branchy = [x for x in walk(ll["body"]) if x.get("k") in ("if", "match", "continue", "break", "ret")] if ll else [fv.body]
+            branchy = [x for x in walk(ll["body"]) if x.get("k") in ("if", "match", "continue", "break", "ret")
+                       and not is_readline_control(x) and not any(is_readline_control(a_) for a_ in fv.ancestors(x))] if ll else [fv.body]
             if ll is not None and ll.get("k") == "for" and ll.get("iter") is not None:
                 # the iterator the loop runs over may carry the parsing (`lines().map_while(ok).map(parse)`): no
                 # filtering adaptor, no branching closure
